@@ -247,6 +247,8 @@ def run(ctx):
     # a refused patch is undone on the log it was rewound on (and every per-kind arm
     # works on its own log)
     c04.r7_log_kind_arms(ctx, rule_id="C09-R8")
+    # a conflict that is only in one log kind (files) must still be seen as a conflict
+    shared(c04.r8_per_kind_aggregates, "C04-R8", "C09-R9")
     if ctx.tier == "thorough" and ctx.config == "workspace":
         from .. import witness
         witness.run(ctx, 'C09-W', 'mutating server helpers need the write guard (type level)', {'PatchNeedsWriteGuard': 'event_patch(req, &mut *read_guard)', 'SyncNeedsWriteGuard': 'sync_account(packet, &mut *read_guard)'})
